@@ -28,7 +28,6 @@ import (
 
 	"github.com/elliotchance/gedcom/v39"
 	"github.com/elliotchance/gedcom/v39/html"
-	"github.com/elliotchance/gedcom/v39/q"
 )
 
 var c14FaultNames = []string{
@@ -88,7 +87,11 @@ var (
 	// names without a single a-z / 0-9 (other scripts, accented letters only), short and of varied
 	// length, sharing letters with each other: name comparison sees them as they are written
 	c14NonLatin = []string{"雷 /李/", "李 /雷/", "雷雷 /李/", "王 /小明/", "小明 /王/", "Иван /Петров/", "Ива /Петр/", "Ян /Ли/", "Ли /Ян/", "Пётр /Иванов/",
-		"Ωμέγα /Αλφα/", "Αλ /Ωμ/", "ÉÈ /ÜÖ/", "Ü /É/", "É /Ü/", "ÉÜ", "/李/", "雷", "محمد /علي/", "علي /محمد/", "ÑÉ /ÖÜÄ/"}
+		"Ωμέγα /Αλφα/", "Αλ /Ωμ/", "ÉÈ /ÜÖ/", "Ü /É/", "É /Ü/", "ÉÜ", "/李/", "雷", "محمد /علي/", "علي /محمد/", "ÑÉ /ÖÜÄ/",
+		// name shapes: 1-3 characters, one non-ASCII letter as the whole surname, punctuation only, combining
+		// marks only, and long ones — none has an ASCII letter or digit
+		"李 伟", "山田 太郎", "Ωμέγα", "/Ø/", "Ø", "Ж", "/Ж/", "-", "?", "--- /.../", "' /'/", "\u0301", "\u0301\u0308 /\u0301/", "々", "한 /김/", "김", "ŁÓ /ŚĆ/",
+		"Александр Сергеевич /Пушкин-Мусин/", "Παπαδόπουλος /Κωνσταντίνος/", "山田山田山田山田山田 /太郎太郎太郎太郎太郎/", "Ñ", "ß /ß/"}
 	c14OddSurn = []string{"1Smith", "#hash", "Éclair", "Ünal", "Kelvin", "İzmir", "王", " lead", "-dash", "'t Hooft", "Ж", " nbsp", "z"}
 	c14GoodDates = []string{"1 Jan 1850", "1850", "Abt. 1900", "Bet. 1850 and 1860", "12 Dec 1910", "Bef. 1700", "3 Sep 1943", "Mar 1880"}
 	c14BadDates  = []string{"garbage", "31 Feb 1850", "Bet. 1900 and 1800", "", "(phrase)", "@#DJULIAN@ 1 JAN 1700", "0",
@@ -795,7 +798,7 @@ func init() {
 		// a well-formed file as the other side of diff / second document of the merge query
 		okFile := filepath.Join(tmp, "ok.ged")
 		okGraph := c14Base(c.R.Fork("ok"), now)
-		for k, nm := range []string{"雷 /李/", "Иван /Петров/", "É /Ü/"} {
+		for k, nm := range []string{"雷 /李/", "Иван /Петров/", "É /Ü/", "李 伟", "山田 太郎", "Ωμέγα", "/Ø/", "-", "\u0301", "Ж", "Παπαδόπουλος /Κωνσταντίνος/"} {
 			okGraph.indis = append(okGraph.indis, &c14Indi{ptr: fmt.Sprintf("N%d", k+1), names: []string{nm}, surn: "\x00",
 				evs: []c14Ev{{tag: "BIRT", date: "1 Jan 1850", hasDate: true}, {tag: "DEAT", value: "Y"}}})
 		}
@@ -896,28 +899,9 @@ func init() {
 			// (history) q's MergeDocumentsAndIndividuals in ONE engine: evaluated twice on the same two
 			// documents, then with the same document on both sides, then on a third document
 			if fi%4 == 0 && !mergeHung {
-				obs := c14WithTimeout(20*time.Second, func() string {
-					engine, err := q.NewParser().ParseString("MergeDocumentsAndIndividuals(Document1, Document2)")
-					if err != nil {
-						return "parse error"
-					}
-					d1, _ := gedcom.NewDocumentFromString(text)
-					d2, _ := gedcom.NewDocumentFromString(okText)
-					str := func(v interface{}, err error) string {
-						if err != nil {
-							return "error"
-						}
-						if g, ok := v.(gedcom.GEDCOMStringer); ok {
-							return g.GEDCOMString(0)
-						}
-						return fmt.Sprint(v)
-					}
-					first := str(engine.Evaluate([]*gedcom.Document{d1, d2}))
-					second := str(engine.Evaluate([]*gedcom.Document{d1, d2}))
-					str(engine.Evaluate([]*gedcom.Document{d1, d1}))
-					str(engine.Evaluate([]*gedcom.Document{d2, d1}))
-					return fmt.Sprintf("again-equal=%v", first == second)
-				})
+				// in a child process: the comparison runs in goroutines of the library, where a panic
+				// cannot be recovered and would end the harness instead of being reported
+				obs, mergeDetail := c14MergeHistoryChild(tmp, text, okText)
 				c.Eval()
 				c.Count("merge history in one engine: " + obs)
 				if obs == "timeout" {
@@ -927,7 +911,7 @@ func init() {
 					c.Oracle("", "MergeDocumentsAndIndividuals in one engine does not return (hang)", map[string]string{"faults": c14MaskNames(mask), "file": text, "other_file": okText}, "no result within 20 s", "a result or an error")
 				}
 				if obs == "panic" {
-					c.Oracle("", "MergeDocumentsAndIndividuals evaluated repeatedly in one engine panics", map[string]string{"faults": c14MaskNames(mask), "file": text, "other_file": okText}, "panic", "a result or an error")
+					c.Oracle("", "MergeDocumentsAndIndividuals evaluated repeatedly in one engine panics", map[string]string{"faults": c14MaskNames(mask), "file": text, "other_file": okText}, "panic: "+mergeDetail, "a result or an error")
 				}
 			}
 
